@@ -443,6 +443,11 @@ def border_sites(f):
             if b["blocks"][bi]["cleanup"]:
                 continue
             for st in b["blocks"][bi]["stmts"]:
+                if st["k"] == "Assign" and st["place"]["local"] == 0 and not st["place"]["proj"] and b["locals"][0]["ty"] == "usize" and st["rv"]["k"] == "Use":
+                    cnt["value"] = cnt.get("value", 0) + 1
+                    key = "%s | returns value #%d" % (fname(b, p), cnt["value"])
+                    out.append((key, b, bi, st, [sym.operand(st["rv"]["op"])], ["%s = %s" % x for x in sym.live_guards(bi)]))
+                    continue
                 if st["k"] != "Assign" or st["rv"]["k"] != "Aggregate":
                     continue
                 rv = st["rv"]
